@@ -338,7 +338,9 @@ where
             assert_eq!(pos.map(|i| chain.remove(i).1), Some(key));
         });
         
+        let mut computed_here = false;
         let res = self.storage.cache.get_or_compute(key, || {
+            computed_here = true;
             match self.resolve(key).and_then(|p| T::from_primitive(p, self)) {
                 Ok(obj) => Ok(AnySync::new(Shared::new(obj))),
                 Err(e) => {
@@ -358,9 +360,12 @@ where
                     }
                 }
             }
+            // this very call failed to load the reference as `T`
+            Err(e) if computed_here => Err(PdfError::Shared { source: e }),
             Err(_) => {
-                // the cached failure may stem from a load of this reference as a different type
-                // (the entry does not record which): decide for `T` itself, as for a type mismatch.
+                // a failure cached by an earlier call, which may have loaded this reference as a
+                // different type (the entry does not record which): decide for `T` itself, as
+                // for a type mismatch.
                 let p = self.resolve(key)?;
                 Ok(RcRef::new(key, T::from_primitive(p, self)?.into()))
             }
